@@ -68,6 +68,7 @@ def script_for(name, kind, r, model):
         lines += ['_ctl="${VERIF_CTL:-/nonexistent}/%s"' % tag,
                   'if [ -e "$_ctl.sleep" ]; then sleep "$(cat "$_ctl.sleep")"; fi',
                   'echo "START %s %s $PWD $$ $EPOCHREALTIME" >> "${VERIF_EVLOG:-/dev/null}"' % (name, kind),
+                  'echo "ARGS %s %s $PWD $(for _i in "$@" "${BOB_TOOL_PATHS[@]}"; do [ -d "$_i" ] && (cd "$_i" && pwd); done | tr "\n" " ")" >> "${VERIF_EVLOG:-/dev/null}"' % (name, kind),
                   'if [ -e "$_ctl.fail" ] || [ -e "$_ctl.kill" ]; then echo "partial output of an aborted run" > %s; %s' % (out0, ("echo stray > stray-partial; " if kind == "package" else "")),
                   '  if [ -e "$_ctl.kill" ]; then kill -9 "$(cat "${VERIF_CTL}/bobpid")"; sleep 30; fi; exit 1; fi']
     lines += ["{", '  echo "token=%s"' % tok]
